@@ -151,6 +151,18 @@ impl<'a> Oracle<'a> {
         }
     }
 
+    /// is the (possibly tagged) type an untagged open type after following references?
+    fn open_type_like(&self, t: &Ty) -> bool {
+        if t.tag.is_some() {
+            return false;
+        }
+        match &t.kind {
+            TyKind::Any => true,
+            TyKind::Ref { name, .. } => self.env.get(name).is_some_and(|(_, rt)| self.open_type_like(rt)),
+            _ => false,
+        }
+    }
+
     // ------------------------------------------------------------------ C03
     fn check_tag(&mut self, got: Option<proj::Tag>, ty: &Ty, mi: usize, pos: Pos, what: &str) {
         let tagging = self.set.modules[mi].tagging;
@@ -187,7 +199,10 @@ impl<'a> Oracle<'a> {
                 // rasn applies explicit tagging to CHOICE types on its own: on a component/alternative/element the marking is not observable
                 // (decided by the DER-level monitor only); the same holds for a delegate newtype around a referenced CHOICE / open type.
                 // Only a tag written on an inline CHOICE type assignment is judged at attribute level.
-                let observable = !(choice_like && (pos != Pos::Assignment || !matches!(inner.kind, TyKind::Choice(_))));
+                // An open type is different: rasn's `Any` carries no tag of its own and an implicit tag on it is simply dropped on
+                // the wire (`#[rasn(delegate, tag(context, 5))] struct A(Any)` encodes `02 01 05` as `02 01 05`, with
+                // `tag(explicit(context, 5))` as `a5 03 02 01 05`; measured against rasn 0.27), so the marking is what decides.
+                let observable = self.open_type_like(&inner) || !(choice_like && (pos != Pos::Assignment || !matches!(inner.kind, TyKind::Choice(_))));
                 if observable {
                     self.bump("tag_modes_compared");
                     if g.explicit != expect_explicit {
